@@ -79,7 +79,7 @@ fn sniff_once(stream: &[u8], chunks: &[usize], pendings: u64, out_cap: usize) ->
     let (is_h2, mut rewind) = r.map_err(|e| format!("sniffer error: {e}"))?;
     // read everything back
     let mut out = vec![];
-    let mut storage = vec![MaybeUninit::new(0xA5u8); out_cap];
+    let mut storage = storage(out_cap);
     for _ in 0..(stream.len() + 8) * 2 {
         let mut rb = hyper::rt::ReadBuf::uninit(&mut storage);
         let p = noop_cx_run(|cx| hyper::rt::Read::poll_read(Pin::new(&mut rewind), cx, rb.unfilled()));
@@ -286,6 +286,7 @@ pub fn run_c08(args: &Args) -> i32 {
     run.cov("exhaustive", true);
     run.cov("samples", vec![json!({"stream":"h2-preface+settings","chunks":[10,14,18],"pendings":"before every read","expect":"HTTP/2, bytes intact"}), json!({"stream":"preface[..7]+diverge","chunks":[3,4,1,38],"expect":"HTTP/1, bytes intact"})]);
     run.assume("unit level: the sniffer + rewind buffer are driven through the verif-hooks wrapper over a scripted reader; the end-to-end differential against plain hyper connections is part of the schedmc engine");
+    miri_stage_report(&mut run, "C08");
     run.finish()
 }
 
@@ -391,7 +392,7 @@ impl<T: tokio::io::AsyncRead + tokio::io::AsyncWrite + Unpin> Subject for TokioS
         map_u(noop_cx_run(|cx| Pin::new(&mut self.0).poll_shutdown(cx)))
     }
     fn read(&mut self, cap: usize, prefilled: usize) -> Seen {
-        let mut storage = vec![MaybeUninit::new(0xA5u8); cap + prefilled];
+        let mut storage = storage(cap + prefilled);
         let mut rb = tokio::io::ReadBuf::uninit(&mut storage);
         let pre: Vec<u8> = (0..prefilled).map(|i| 0xC0 + i as u8).collect();
         rb.put_slice(&pre);
@@ -434,7 +435,7 @@ impl<T: hyper::rt::Read + hyper::rt::Write + Unpin> Subject for HyperSubject<T> 
         map_u(noop_cx_run(|cx| Pin::new(&mut self.0).poll_shutdown(cx)))
     }
     fn read(&mut self, cap: usize, prefilled: usize) -> Seen {
-        let mut storage = vec![MaybeUninit::new(0xA5u8); cap + prefilled];
+        let mut storage = storage(cap + prefilled);
         let mut rb = hyper::rt::ReadBuf::uninit(&mut storage);
         let pre: Vec<u8> = (0..prefilled).map(|i| 0xC0 + i as u8).collect();
         rb.unfilled().put_slice(&pre);
@@ -459,6 +460,23 @@ impl<T: hyper::rt::Read + hyper::rt::Write + Unpin> Subject for HyperSubject<T> 
 }
 
 const INCOMING: &[u8] = b"abcdefghijklmnopqrstuvwxyz0123456789";
+
+/// Read-buffer storage. Natively it carries a recognisable pattern (so a wrong `filled` length shows
+/// up as wrong bytes, deterministically); under miri it is genuinely uninitialised, so that an
+/// adapter claiming more bytes than it wrote is reported as a read of uninitialised memory.
+fn storage(n: usize) -> Vec<MaybeUninit<u8>> {
+    if cfg!(miri) {
+        let mut v: Vec<MaybeUninit<u8>> = Vec::with_capacity(n);
+        // SAFETY: MaybeUninit<u8> needs no initialisation
+        #[allow(unsafe_code)]
+        unsafe {
+            v.set_len(n)
+        };
+        v
+    } else {
+        vec![MaybeUninit::new(0xA5u8); n]
+    }
+}
 
 struct AdapterDef {
     name: &'static str,
@@ -639,6 +657,10 @@ fn decode(mut code: usize, depth: usize, alpha: &[Step]) -> Vec<Step> {
 fn replay_c18(path: &str) -> i32 {
     let doc: serde_json::Value = serde_json::from_str(&std::fs::read_to_string(path).expect("replay file")).expect("json");
     let rp = doc.get("replay").cloned().unwrap_or(doc);
+    if rp.get("engine").and_then(|x| x.as_str()) == Some("miri") {
+        println!("miri artefact: case {}; log {}; re-run `./check C18 --tier thorough` to repeat the miri stage", rp.get("case").and_then(|x| x.as_str()).unwrap_or(""), rp.get("log").and_then(|x| x.as_str()).unwrap_or(""));
+        return 2;
+    }
     if rp.get("engine").and_then(|x| x.as_str()) != Some("iomc-c18") {
         println!("replay of duplex / socket artefacts: re-run ./check C18 (the sequence is printed in the artefact)");
         return 2;
@@ -768,6 +790,7 @@ pub fn run_c18(args: &Args) -> i32 {
     run.cov("exhaustive", true);
     run.cov("samples", vec![json!({"adapter":"Rewind(prefix len 3)","sequence":["Read(cap 2, prefilled 1) -> inner not touched","Read(cap 8) -> 'R' then inner data","Write(3) short accept 1"]})]);
     run.assume("TcpStream/UnixStream wrappers: fixed sequential scripts over real socket pairs (supplementary, one-sided); their generic dispatch (Braid, TlsBraid, Stream) is covered over scripted and duplex inners");
+    miri_stage_report(&mut run, "C18");
     run.finish()
 }
 
@@ -930,4 +953,106 @@ fn socket_scripts() -> Result<u64, String> {
         }
         Ok(n)
     })
+}
+
+
+/// Fold the result of the miri stage (run by ./check before the thorough tier of C08 / C18) into the
+/// evidence; undefined behaviour or a reference disagreement found there is a violation, an
+/// unavailable stage (toolchain missing, timeout) is recorded and is not a verdict.
+fn miri_stage_report(run: &mut Run, prop: &str) {
+    let Ok(spec) = std::env::var("HDMC_MIRI_STAGE") else { return };
+    let rc = spec.split_whitespace().find_map(|w| w.strip_prefix("rc=")).unwrap_or("?").to_string();
+    let log = spec.split_whitespace().find_map(|w| w.strip_prefix("log=")).unwrap_or("").to_string();
+    let text = std::fs::read_to_string(&log).unwrap_or_default();
+    let last_case = text.lines().filter(|l| l.starts_with("miri-case")).last().unwrap_or("").to_string();
+    let cases = text.lines().filter(|l| l.starts_with("miri-case")).count() as u64;
+    if let Some(ok) = text.lines().find(|l| l.starts_with("MIRI-STAGE ok")) {
+        run.cov("miri_stage", ok.to_string());
+        run.cov("miri_stage_executions", cases);
+        return;
+    }
+    let mine = |case: &str| (prop == "C18" && case.starts_with("miri-case c18")) || (prop == "C08" && case.starts_with("miri-case c08"));
+    if text.contains("Undefined Behavior") {
+        let what = text.lines().find(|l| l.contains("Undefined Behavior")).unwrap_or("").trim().to_string();
+        if mine(&last_case) {
+            run.violation(format!("miri-ub {}", what.split(':').nth(2).unwrap_or("").trim().chars().take(60).collect::<String>()), format!("miri reports {what} while executing {last_case}"), json!({"engine":"miri","case":last_case,"log":log}));
+        } else {
+            run.cov("miri_stage", format!("stopped at a case of the other property: {last_case}"));
+        }
+        return;
+    }
+    if let Some(d) = text.lines().find(|l| l.starts_with("MIRI-STAGE reference disagrees")) {
+        if mine(&last_case) {
+            run.violation("miri-reference-disagrees".into(), format!("{d} (under miri, with uninitialised read buffers); {last_case}"), json!({"engine":"miri","case":last_case,"log":log}));
+        } else {
+            run.cov("miri_stage", format!("stopped at a case of the other property: {last_case}"));
+        }
+        return;
+    }
+    run.cov("miri_stage", format!("unavailable (rc={rc}, {cases} cases executed before it stopped); not a verdict"));
+}
+
+// -------------------------------------------------------------------------------------------------
+// miri stage (run by ./check for the thorough tier of C08 and C18: `cargo +nightly miri run -- MIRI`)
+
+/// Bounded-exhaustive slice of the C18 operation sequences (every sequence of <= 2 steps over the
+/// reduced alphabet, every adapter stack, both inner write flavours) and of the C08 sniff runs (every
+/// stream, every composition with <= 1 cut, pending never / before every read, read-back caps 1 and 64),
+/// executed under the miri interpreter with genuinely uninitialised read buffers. The same reference
+/// oracles apply; in addition miri reports undefined behaviour in the `unsafe` blocks of the
+/// adapters (rewind.rs, bridge/io.rs, server/conn/auto.rs) on any of these executions.
+pub fn run_miri_stage(which: &str) -> i32 {
+    let ads = if which == "C08" { vec![] } else { adapters() };
+    let alpha = alphabet(false);
+    let mut n = 0u64;
+    for ad in &ads {
+        for d in 1..=2usize {
+            for code in 0..alpha.len().pow(d as u32) {
+                let seq = decode(code, d, &alpha);
+                for vectored in [false, true] {
+                    if vectored && !seq.iter().any(|s| matches!(s.op, Op::WriteVectored | Op::WriteVectoredB)) {
+                        continue;
+                    }
+                    n += 1;
+                    eprintln!("miri-case c18 adapter={:?} seq={seq:?} vectored={vectored}", ad.name);
+                    if let Err(m) = run_sequence(ad, &seq, vectored) {
+                        println!("MIRI-STAGE reference disagrees: {}: {m}", ad.name);
+                        return 1;
+                    }
+                }
+            }
+        }
+    }
+    let mut m = 0u64;
+    for (name, stream) in if which == "C18" { vec![] } else { stream_family() } {
+        let want_h2 = stream.starts_with(PREFACE);
+        let window = stream.len().min(32);
+        let mut shapes: Vec<Vec<usize>> = vec![vec![]];
+        for cut in 1..window {
+            shapes.push(vec![cut]);
+        }
+        shapes.push(vec![1; window]);
+        for chunks in &shapes {
+            for pend in [0u64, u64::MAX] {
+                for out_cap in [1usize, 64] {
+                    m += 1;
+                    eprintln!("miri-case c08 stream={name:?} chunks={:?} pending={} out_cap={out_cap}", &chunks[..chunks.len().min(3)], pend != 0);
+                    match sniff_once(&stream, chunks, pend, out_cap) {
+                        Ok((h2, back)) => {
+                            if h2 != want_h2 || back != stream {
+                                println!("MIRI-STAGE reference disagrees: sniff {name}: h2={h2} (want {want_h2}), {} of {} bytes read back", back.len(), stream.len());
+                                return 1;
+                            }
+                        }
+                        Err(e) => {
+                            println!("MIRI-STAGE reference disagrees: sniff {name}: {e}");
+                            return 1;
+                        }
+                    }
+                }
+            }
+        }
+    }
+    println!("MIRI-STAGE ok c18_sequences={n} c08_sniff_runs={m}");
+    0
 }
